@@ -172,6 +172,17 @@ Fixpoint build_tree (fuel : nat) (a : adj) (r : Z) : option tree :=
     end
   end.
 
+(* the adjacency list a is that of the tree t: every node's entry lists its children in order (none for a leaf) *)
+Fixpoint tree_adjb (a : adj) (t : tree) : bool :=
+  match t with
+  | Node n kids =>
+    (match kids, alookup a n with
+     | [], None => true
+     | _ :: _, Some l => list_eqb Z.eqb l (map root_id kids)
+     | _, _ => false
+     end) && forallb (tree_adjb a) kids
+  end.
+
 (* the i-th group created in one run is named with index  N + pred i  (N groups existed before) *)
 Fixpoint name_groups (N : Z) (i : nat) (gss : list (list Z)) : list group :=
   match gss with
@@ -236,9 +247,26 @@ Definition tree_groups (c : cell) (gs : list group) (root : Z) : option (list gr
   | None => None
   end.
 
+(* the hypotheses of C16_model_correct, decided by computation for a concrete case *)
+Fixpoint nodup_strb (l : list string) : bool :=
+  match l with
+  | [] => true
+  | x :: r => negb (existsb (String.eqb x) r) && nodup_strb r
+  end.
+
+Definition hyps_ok (c : cell) (gs : list group) (root : Z) : bool :=
+  match build_tree (fuel_of c) (adjacency c) root with
+  | Some t =>
+      tree_adjb (adjacency c) t && list_eqb Z.eqb (dedup (preorder t)) (preorder t)
+      && forallb (fun x => memZ x (ids c)) (preorder t)
+      && nodup_strb (map gid gs ++ map gid (name_groups (Z.of_nat (List.length gs)) O (sect_tree t [])))
+  | None => false
+  end.
+
 Definition is_section (g : group) : bool := optstr_eqb (gnlx g) (Some section_nlx).
 
-(* 1 = model vs implementation: segments; 2 = groups; 3 = list-level model vs rose-tree function *)
+(* 1 = model vs implementation: segments; 2 = groups; 3 = list-level model vs rose-tree function;
+   4 = the case lies outside the hypotheses of C16_model_correct *)
 Definition case_diff (k : case16) : list nat :=
   let m := create_branches (k_cell k) (k_groups k) (k_root k) (k_reorder k) (k_optimise k) in
   match m, k_out k with
@@ -251,7 +279,8 @@ Definition case_diff (k : case16) : list nat :=
                                     (st_groups (match create_branches (k_cell k) (k_groups k) (k_root k) false false with
                                                 | Ok s => s | Err _ => st end))) tg
                   | None => false
-                  end))%list
+                  end)
+       ++ flag 4 (hyps_ok (k_cell k) (k_groups k) (k_root k)))%list
   | Err e, Err f => flag 1 (err_eqb e f)
   | _, _ => [1%nat; 2%nat]
   end.
